@@ -5,6 +5,7 @@ import (
 	"errors"
 	"fmt"
 	"io"
+	"math"
 	"regexp"
 	"sort"
 	"strconv"
@@ -722,12 +723,19 @@ func (e *Evaluator) evalBinaryExpr(expr *ExprBinary) (*Cell, error) {
 			}
 			return NewCell(NewValue(leftNum / rightNum)), nil
 		case Percent:
-			leftInt := int(leftNum)
-			rightInt := int(rightNum)
+			// the remainder of the operands truncated to integers, with the
+			// sign of the dividend; computed on float64 so that operands beyond
+			// the range of int (1e19 % 7) are not mangled by the conversion
+			leftInt := math.Trunc(leftNum)
+			rightInt := math.Trunc(rightNum)
 			if rightInt == 0 {
 				return nil, e.error(expr.OpToken, "divide by zero")
 			}
-			return NewCell(NewValue(leftInt % rightInt)), nil
+			rem := math.Mod(leftInt, rightInt)
+			if rem == 0 {
+				rem = 0 // no negative zero
+			}
+			return NewCell(NewValue(rem)), nil
 		default:
 			panic("unhandled operator")
 		}
